@@ -118,6 +118,19 @@ fn item<C: Suite>(ctx: &mut Ctx, n: u16, t: u16, kind: &str, keyk: &str) {
         }
         ctx.count("shares_checked");
     }
+    // anybody can recreate the public key package from the published commitment and the identifier set
+    {
+        let idset: std::collections::BTreeSet<Identifier<C>> = grp.ids.iter().copied().collect();
+        match frost_core::keys::PublicKeyPackage::<C>::from_commitment(&idset, &first_comm) {
+            Ok(re) => {
+                if re != grp.pkp {
+                    ctx.viol("dealer-output-inconsistent", "recreated-public-key-package", d("PublicKeyPackage::from_commitment(identifiers, commitment) != the dealer's public key package", json!({})));
+                }
+            }
+            Err(e) => ctx.viol("dealer-output-inconsistent", "recreated-public-key-package", d("from_commitment failed", json!({"err": format!("{e:?}")}))),
+        }
+        ctx.count("recreations");
+    }
     // log a sample for the Python re-check of the polynomial identity
     if ctx.cur_item % 7 == 0 && nn <= 10 {
         ctx.event(json!({"k": "vss", "item": ctx.cur_item,
